@@ -655,7 +655,7 @@ func (fr *frame) visitInstr(instr ssa.Instruction) continuation {
 		if ln < 0 || cp < ln {
 			panic(targetPanic{v: r.runtimeErr("makeslice: len out of range")})
 		}
-		if cp > 1<<20 {
+		if cp > 1<<23 {
 			panic(unsupported("huge make"))
 		}
 		s := make([]Value, cp)
